@@ -7,6 +7,8 @@ VERIF = os.path.dirname(os.path.dirname(os.path.abspath(__file__)))
 ENGINES = [
     dict(name="periph", path="engines/periph", serves_properties=["C13", "C15", "C16"],
          kind_free_text="explicit-state BFS / exhaustive configuration enumeration over the real Timer, Btdmp, Dma+Ahbm objects with lock-step reference models"),
+    dict(name="sys", path="engines/sys", serves_properties=["C14"],
+         kind_free_text="explicit-state BFS over the whole Teakra facade (host API + DSP-side MMIO) with snapshot/restore of the plain state and lock-step reference models"),
 ]
 
 # id -> (engine, technique, level text, level note, design ref)
@@ -15,6 +17,10 @@ CLAIMED = {
             "Every configuration of the declared size/step/mode/space/channel/overlap product is executed on the real code and compared element by element (ordered DSP write log, ordered external access logs, interrupt count) with a 40-line reference; this decides the property for the whole bounded configuration space, which is what a strided-copy bug needs to show up (sizes 0..3 reach every branch of the three nested counters).",
             "Trusted: the reference nested loop, the memory-observer hook, g++. Addresses are kept inside the data space (out-of-range strides are C18's subject); external side restricted to naturally aligned units and whole bursts as the statement says.",
             "DESIGN.md section 4, C13"),
+    "C14": ("sys", "explicit-state breadth-first search over the two real Apbp objects inside a Teakra (host API vs DSP-side MMIO), reference handshake model in lock-step, invariant evaluated in every reached state",
+            "Every event sequence up to the depth bound over the combined 76-event alphabet, plus the complete reachable state set of every component (6 data channels, 2 semaphore directions) and of every pair of components, is executed on the real facade; each transition is compared with the statement's handshake model (state, returned value, ICU line, host callbacks) and the signal/ready-flag views are compared in every state. Cross-talk between channels or directions (wrong index in the wiring) shows up at depth 1-2; the pairwise fixpoints close the state space because components share no state.",
+            "Trusted: the reference handshake model, g++, snapshot/restore of Apbp fields through -fno-access-control. Payloads restricted to {1,2}, semaphore bits to {0,1,15}.",
+            "DESIGN.md section 4, C14"),
     "C15": ("periph", "explicit-state breadth-first search over the real Timer object, reference model in lock-step on every transition, Skip(k) vs k x Tick differential on every state",
             "All states of the timer reachable within the depth bound over the full alphabet, and the complete reachable set of the finite sub-machine (start<=3, no free-running), are visited; in every state every event including Skip(k) for every k up to the reported horizon is applied to the real object and compared with the statement's model and with k real Ticks.",
             "Trusted: the 60-line reference model of the statement, g++. Time scale fixed at 0. Counter values beyond those reachable from the start alphabet {0,1,2,3,0xFFFF}x{0,1,0xFFFF} within the depth are not visited.",
